@@ -37,8 +37,10 @@ def demo_cmd(path):
 
 def main():
     prop, n = sys.argv[1], sys.argv[2]
-    wt = "/tmp/seed/%s" % prop
-    out = "/verif/seeded/%s-m%s" % (prop, n)
+    root = os.environ.get("SEED_ROOT", "/tmp/seed")
+    prefix = os.environ.get("SEED_PREFIX", "")
+    wt = "%s/%s" % (root, prop)
+    out = "/verif/seeded/%s%s-m%s" % (prefix, prop, n)
     patch = "%s/seed_out/mutant%s.diff" % (wt, n)
     demo = "%s/seed_out/demo%s.cpp" % (wt, n)
     res = dict(property=prop, mutant=int(n), worktree=wt, when=time.strftime("%Y-%m-%d %H:%M:%S"))
